@@ -733,9 +733,9 @@ class Lin:
                     t[a] = c
         self.t = t
 
-    @staticmethod
-    def atom(name):
-        return Lin({name: Q(1)})
+    @classmethod
+    def atom(cls, name):
+        return cls({name: Q(1)})
 
     def is_zero(self):
         return not self.t
@@ -757,7 +757,7 @@ class Lin:
         return 0
 
     def __neg__(self):
-        return Lin({a: -c for a, c in self.t.items()})
+        return self.__class__({a: -c for a, c in self.t.items()})
 
     def __pos__(self):
         return self
@@ -770,7 +770,7 @@ class Lin:
         t = dict(self.t)
         for a, c in o.t.items():
             t[a] = t[a] + c if a in t else c
-        return Lin(t)
+        return self.__class__(t)
 
     __radd__ = __add__
 
@@ -787,14 +787,14 @@ class Lin:
     def __mul__(self, o):
         if isinstance(o, Lin):
             raise AlgError("product of two linear forms")
-        return Lin({a: c * o for a, c in self.t.items()})
+        return self.__class__({a: c * o for a, c in self.t.items()})
 
     __rmul__ = __mul__
 
     def __truediv__(self, o):
         if isinstance(o, Lin):
             raise AlgError("division by a linear form")
-        return Lin({a: c / o for a, c in self.t.items()})
+        return self.__class__({a: c / o for a, c in self.t.items()})
 
     def map_atoms(self, f):
         """f(atom) -> Lin or atom name; builds the image form."""
